@@ -437,6 +437,12 @@ def decode_p1_readout_content(
     content: bytes,
 ) -> dict[str, str | int | float | datetime]:
     """Decode P1 readout content into dictionary."""
+    if any(
+        (byte < 0x20 and byte not in (0x09, 0x0A, 0x0D)) or byte == 0x7F
+        for byte in content
+    ):
+        # a data block is text (IEC 62056-21). Binary data is not a P1 readout.
+        raise ValueError("Readout content must be printable text.")
     parsed = parse_p1_readout_content(content)
     if not parsed:
         raise ValueError("Content cotains no readout data.")
